@@ -188,6 +188,16 @@ def checkStmt : Nat → Ctx → Stmt → R Ctx
       else match label with
         | none => pure c
         | some lb => if c.loops.contains (some lb) then pure c else throw (.badContinue l)
+    | .filter _ pat action => do
+      -- a filter is compiled in a scope of its own: not a function (no `return`), no enclosing loop
+      let inner : Ctx := { scopes := [] :: c.scopes, loops := [], inFn := false }
+      match pat with
+      | .expr e => checkE fuel inner e
+      | _ => pure ()
+      match action with
+      | some b => checkBlock fuel inner b
+      | none => pure ()
+      pure c
     | _ => throw .unc
 end
 
